@@ -871,5 +871,5 @@ func checkLoopBounds(c loopCase) ev.Outcome {
 func init() {
 	ev.Define("loop_bounds", ev.Options{
 		Rule:  "loops valid by construction (regular/star/lattice/cell loops, 1/8 inverted; star loops with a vertex at the pole or 1e-300..1e-9 rad from it; loops with an edge on (nearly) opposite meridians passing through or within a hair of a pole, longitude span pi-eta..pi; convex loops on a small circle grazing a pole; triangles/quads with vertices 2e-16..0.1 rad from antipodal); ~29 probes each: vertices, high-precision points on edges and at each edge's latitude extremum +-4 ulps, seam points (y = 0, +-5e-324, tiny), poles and near-poles, cell centres, interior points. Truth = exact crossing parity from the construction's inside point (never Loop.ContainsPoint). Every truly contained probe must be in RectBound (computed lat/lng), CapBound and CellUnionBound. Non-trivial = a contained probe lies within 1e-15 rad of an edge interior and the rectangle is not full.",
-		Quick: 24000, Thorough: 800000}, genLoopCase, checkLoopBounds)
+		Quick: 24000, Thorough: 400000}, genLoopCase, checkLoopBounds)
 }
